@@ -34,6 +34,8 @@ RULE = (
     "failure stage other than 'none', followed by the retry."
 )
 ASSUMPTIONS = [
+    "the waiting-reap phase uses the real clock (a grower finishes 1.6 s "
+    "after the reap started); a slower machine only makes it slower",
     "the process runs as root, so read-only directories cannot be used as a "
     "fault; the save failure is a missing directory or an injected OSError",
     "wait=True is only combined with complete crops (blocking is liveness)",
@@ -388,6 +390,68 @@ def run_case(case):
                         "retried" if expect_fail else "first-reap-ok"]}
 
 
+def run_slow(case):
+    """A waiting reap (real clock): the last batch is finished by somebody
+    else a good second after the reap started.  Whatever else the reap is told
+    to tolerate, waiting means waiting: the result is complete and exact, and
+    the crop is only removed after that."""
+    import time
+    import threading
+    x = xyz()
+    A = [1, 2, 3, 4]
+    with core.scratch("xv-c12w-") as root:
+        fn = crops.record("int", None)
+        if case["farmer"] == "runner":
+            spec = {"vars": [["out", []], ["E", []]], "sizes": {},
+                    "ret": "tuple", "log": None}
+            runner = x.Runner(labelled.make_fn(spec), ("out", "E"))
+            crop = runner.Crop(name="c12w", parent_dir=root, batchsize=2)
+        else:
+            crop = x.Crop(fn=fn, name="c12w", parent_dir=root, batchsize=2)
+        with under_test("sow, grow the first batch"):
+            crop.sow_combos({"a": A}, verbosity=0)
+            crop.grow(1)
+        errs = []
+
+        def late():
+            time.sleep(case["delay"])
+            try:
+                x.grow(2, crop=x.Crop(name="c12w", parent_dir=root),
+                       verbosity=0)
+            except BaseException as e:      # reported below
+                errs.append(e)
+        th = threading.Thread(target=late)
+        th.start()
+        try:
+            with under_test("reap(wait=True, ...)"):
+                got = crop.reap(wait=True, **case["opts"])
+        finally:
+            th.join()
+        require(not errs, "late-grower-failed",
+                f"the grower that finished the last batch raised {errs!r:.300}"
+                f" (the crop was removed under it)")
+        if case["farmer"] == "runner":
+            labelled.check_dataset(
+                got, spec=spec, fn_args=["a"], coords={"a": A},
+                requested=None, fn_kwargs_extra={}, constants={},
+                resources={}, attrs={}, var_coords=None, explicit_names=True,
+                tag="waiting reap")
+        else:
+            want = tuple(models.result_of("int", {"a": a}) for a in A)
+            require(models.deep_eq(got, want), "delivered-data-wrong",
+                    f"waiting reap returned {got!r:.200}, expected "
+                    f"{want!r:.200}")
+    return {"nontrivial": True,
+            "classes": ["waiting-reap", f"farmer={case['farmer']}"]}
+
+
+def slow_cases(tier, seed):
+    for farmer in ("none", "runner"):
+        for opts in ({}, {"allow_incomplete": True},
+                     {"allow_incomplete": True, "clean_up": True}):
+            yield {"farmer": farmer, "opts": opts, "delay": 1.6}
+
+
 def enumerate_cases(tier, seed):
     import random
     rng = random.Random(seed)
@@ -423,5 +487,8 @@ def enumerate_cases(tier, seed):
 
 PHASES = [
     Phase("cross-product", run_case, enumerate=enumerate_cases,
+          exhaustive={"quick": True, "thorough": True}),
+    Phase("waiting-reap", run_slow, enumerate=slow_cases,
+          distinct_by_construction=True,
           exhaustive={"quick": True, "thorough": True}),
 ]
